@@ -171,20 +171,21 @@ FullSync<'a, ItemType, BUFFER_SIZE, MAX_STREAMS> {
     fn send_derived(&self, arc_item: &Arc<ItemType>) -> bool {
         for stream_id in self.streams_manager.used_streams() {
             #[cfg(feature = "verif")] crate::verif::yield_point();
-            if *stream_id == u32::MAX {
+            let mut listener_id = *stream_id;
+            if listener_id == u32::MAX {
                 break
             }
             loop {
-                let channel = unsafe { self.channels.get_unchecked(*stream_id as usize) };
+                let channel = unsafe { self.channels.get_unchecked(listener_id as usize) };
                 match channel.publish_movable(arc_item.clone()).0 {
                     Some(len_after_publishing) => {
                         if len_after_publishing.get() <= 1 {
-                            self.streams_manager.wake_stream(*stream_id);
+                            self.streams_manager.wake_stream(listener_id);
                         }
                         break;
                     },
                     None => {
-                        self.streams_manager.wake_stream(*stream_id);
+                        self.streams_manager.wake_stream(listener_id);
 // TODO 2023-08-02: the possibility of this code indicates all our arc based channels is not a good fit for our retrying semantics. A possible correction would be to use a lock + count all listener's free slots... but OgreArc based ones seem to be a better design
 warn!("Multi Channel's for Arc FullSync (named '{channel_name}', {used_streams_count} streams): One of the streams (#{stream_id}) is full of elements. Multi producing performance has been degraded. Increase the Multi buffer size (currently {BUFFER_SIZE}) to overcome that.",
       channel_name = self.streams_manager.name(), used_streams_count = self.streams_manager.running_streams_count());
@@ -192,6 +193,12 @@ warn!("Multi Channel's for Arc FullSync (named '{channel_name}', {used_streams_c
 #[cfg(feature = "verif")] crate::verif::thread_sleep(Duration::from_millis(500));
 #[cfg(not(feature = "verif"))]
 std::thread::sleep(Duration::from_millis(500));
+                        // the listener we are waiting for may have been dropped meanwhile: the list of listeners is compacted in place,
+                        // so this position now holds whoever came next -- or the end-of-list mark
+                        listener_id = unsafe { std::ptr::read_volatile(stream_id) };
+                        if listener_id == u32::MAX {
+                            break
+                        }
                     },
                 }
             }
